@@ -153,14 +153,15 @@ func (r *recorder) Abort(ctx context.Context, mod api.Module, def api.FunctionDe
 
 // Case is the replayable form.
 type Case struct {
-	Lib       *wasmgen.Module `json:"lib,omitempty"` // second module ("lib") whose exports Module imports (wasm-to-wasm calls)
-	Module    *wasmgen.Module `json:"module"`
-	Script    []runner.Call   `json:"script"`
-	Fuel      int32           `json:"fuel"`
-	Subset    []uint32        `json:"subset,omitempty"`                 // listened wasm function indices (nil = all functions incl. host)
-	FromBytes bool            `json:"instantiate_from_bytes,omitempty"` // Runtime.InstantiateWithConfig: the code is released when the instance closes
-	Multi     bool            `json:"multi_listener_factory,omitempty"` // two recorders combined by experimental.MultiFunctionListenerFactory
-	CloseCtx  bool            `json:"close_on_context_done,omitempty"`  // runtime built WithCloseOnContextDone(true): termination checks at loop headers
+	Lib           *wasmgen.Module `json:"lib,omitempty"` // second module ("lib") whose exports Module imports (wasm-to-wasm calls)
+	Module        *wasmgen.Module `json:"module"`
+	Script        []runner.Call   `json:"script"`
+	Fuel          int32           `json:"fuel"`
+	Subset        []uint32        `json:"subset,omitempty"`                 // listened wasm function indices (nil = all functions incl. host)
+	FromBytes     bool            `json:"instantiate_from_bytes,omitempty"` // Runtime.InstantiateWithConfig: the code is released when the instance closes
+	MultiAllFirst bool            `json:"multi_all_first,omitempty"`        // order of the two factories
+	Multi         bool            `json:"multi_listener_factory,omitempty"` // two recorders combined by experimental.MultiFunctionListenerFactory
+	CloseCtx      bool            `json:"close_on_context_done,omitempty"`  // runtime built WithCloseOnContextDone(true): termination checks at loop headers
 }
 
 type runResult struct {
@@ -192,8 +193,14 @@ func run(engine string, c *Case, listen bool) runResult {
 	lctx := ctx
 	if listen {
 		if c.Multi {
-			rec2 = &recorder{max: 200000, subset: rec.subset}
-			lctx = experimental.WithFunctionListenerFactory(ctx, experimental.MultiFunctionListenerFactory(rec, rec2))
+			// the second recorder listens to every function: with a subset recorder beside it the
+			// combined factory sees factories that decline some functions, in either order
+			rec2 = &recorder{max: 200000}
+			if c.MultiAllFirst {
+				lctx = experimental.WithFunctionListenerFactory(ctx, experimental.MultiFunctionListenerFactory(rec2, rec))
+			} else {
+				lctx = experimental.WithFunctionListenerFactory(ctx, experimental.MultiFunctionListenerFactory(rec, rec2))
+			}
 		} else {
 			lctx = experimental.WithFunctionListenerFactory(ctx, rec)
 		}
@@ -236,24 +243,48 @@ func run(engine string, c *Case, listen bool) runResult {
 	s.FromBytes = c.FromBytes
 	s.Host.MaxLog, s.Host.Global = 0, gl // unlimited: the logs are ground truth here (fuel bounds the number of calls)
 	in := s.Instantiate(lctx, nil)
+	lastEntered := 0
 	cut := func() {
 		res.perCal = append(res.perCal, rec.ev)
 		if rec2 != nil {
-			for k := 0; k < len(rec.ev) || k < len(rec2.ev); k++ {
+			// what the all-functions recorder saw, restricted to the functions the first recorder
+			// listens to, must be exactly what the first recorder saw
+			var proj []Event
+			for _, e := range rec2.ev {
+				if rec.subset == nil || rec.subset[e.ID] || strings.HasSuffix(e.ID, ".callback") {
+					proj = append(proj, e)
+				}
+			}
+			for k := 0; k < len(rec.ev) || k < len(proj); k++ {
 				x, y := "<none>", "<none>"
 				if k < len(rec.ev) {
 					x = rec.ev[k].String()
 				}
-				if k < len(rec2.ev) {
-					y = rec2.ev[k].String()
+				if k < len(proj) {
+					y = proj[k].String()
 				}
 				if x != y && res.multiMsg == "" {
-					res.multiMsg = fmt.Sprintf("the two listeners combined by MultiFunctionListenerFactory saw different events: #%d first=%s second=%s", k, x, y)
+					res.multiMsg = fmt.Sprintf("the listeners combined by MultiFunctionListenerFactory saw different events: #%d subset listener=%s, all-functions listener (restricted to that subset)=%s", k, x, y)
 				}
+			}
+			// and the all-functions recorder must have seen every function that was entered
+			var gotW []string
+			for _, e := range rec2.ev {
+				if e.Kind == 'B' && !e.Host {
+					gotW = append(gotW, e.ID)
+				}
+			}
+			wantW := gl.Entered[lastEntered:]
+			if len(gotW) == len(wantW)+1 { // a function whose fuel check trapped before its entry hook
+				gotW = gotW[:len(gotW)-1]
+			}
+			if strings.Join(gotW, " ") != strings.Join(wantW, " ") && res.multiMsg == "" && (len(res.perCal) > 1 || res.tr.Inst.Kind == wz.KOK || in.Mod != nil) {
+				res.multiMsg = fmt.Sprintf("the all-functions listener combined with a subset listener by MultiFunctionListenerFactory saw Before events for [%s], the functions actually entered are [%s]", strings.Join(gotW, " "), strings.Join(wantW, " "))
 			}
 			rec2.ev = nil
 		}
 		rec.ev = nil
+		lastEntered = len(gl.Entered)
 		res.enter = append(res.enter, append([]string{}, gl.Entered...))
 		res.hostlg = append(res.hostlg, append([]string{}, gl.Calls...))
 	}
@@ -639,7 +670,7 @@ func prop(t *rapid.T) {
 		cfg.Lib, cfg.LibName = lib, "lib"
 	}
 	m := wasmgen.Generate(t, cfg)
-	c := &Case{Module: m, Lib: lib, Fuel: cfg.FuelInit, CloseCtx: closeCtx, Multi: rapid.IntRange(0, 3).Draw(t, "multi") == 0, FromBytes: rapid.IntRange(0, 2).Draw(t, "frombytes") == 0}
+	c := &Case{Module: m, Lib: lib, Fuel: cfg.FuelInit, CloseCtx: closeCtx, Multi: rapid.IntRange(0, 3).Draw(t, "multi") == 0, MultiAllFirst: rapid.Bool().Draw(t, "multiallfirst"), FromBytes: rapid.IntRange(0, 2).Draw(t, "frombytes") == 0}
 	ex := m.Exports()
 	n := rapid.IntRange(1, 5).Draw(t, "ncalls")
 	for i := 0; i < n; i++ {
